@@ -2,6 +2,7 @@ import Mathlib.Algebra.BigOperators.Group.List.Basic
 import Mathlib.Algebra.BigOperators.Ring.List
 import Mathlib.Tactic.Ring
 import PW.Proofs.Basic
+import PW.Proofs.SumLabels
 import PW.Spec
 /-! `sumGrid` congruence and the collapse lemmas of the specification machine. -/
 namespace PW
@@ -53,42 +54,64 @@ theorem sumGrid_add (ds : List Nat) (f g : List Nat → R) :
 
 namespace Spec
 
+theorem scatter_length (n : Nat) (T a : List Nat) (e : Nat → Nat) : (scatter n T a e).length = n := by
+  simp [scatter]
 
-theorem insertAt_length (l : List Nat) (p v : Nat) (hp : p ≤ l.length) :
-    (insertAt l p v).length = l.length + 1 := by
-  unfold insertAt; simp; omega
+theorem scatter_getD_single (n p o : Nat) (hp : p < n) (e : Nat → Nat) :
+    (scatter n [p] [o, o] e).getD p 0 = o := by
+  unfold scatter
+  rw [List.getD_eq_getElem?_getD, List.getElem?_eq_getElem (by simpa using hp)]
+  simp
 
-theorem insertAt_getD (l : List Nat) (p v : Nat) (hp : p ≤ l.length) : (insertAt l p v).getD p 0 = v := by
-  unfold insertAt
-  rw [List.getD_eq_getElem?_getD, List.getElem?_append_right (by simp)]
-  simp [Nat.min_eq_left hp]
+theorem scatter_take_single (n p o : Nat) (e : Nat → Nat) :
+    scatter n [p] (List.take 1 [o, o]) e = scatter n [p] [o, o] e := by
+  unfold scatter
+  apply List.map_congr_left
+  intro q _
+  by_cases h : q = p <;> simp [h]
 
 /-- after projecting on outcome `o`, every other outcome has probability zero: an outcome of
 probability zero is never reported on re-measurement, and re-measuring returns `o` -/
 theorem prob_after_projectOn_other (dims : List Nat) (p o o' : Nat) (hp : p < dims.length) (h : o ≠ o')
     (ρ : Tensor R) : prob dims p (projectOn dims p o ρ) o' = 0 := by
-  unfold prob
-  rw [← sumGrid_zero (R := R) (dims.eraseIdx p)]
-  apply sumGrid_congr
-  intro κ hκ
-  have hlen : κ.length = dims.length - 1 := by rw [hκ, List.length_eraseIdx]; simp [hp]
-  have hpl : p ≤ κ.length := by omega
-  have hil : (insertAt κ p o').length = dims.length := by rw [insertAt_length κ p o' hpl]; omega
-  unfold projectOn; dsimp only
-  rw [List.take_left' hil, insertAt_getD κ p o' hpl]
-  rw [if_neg]; rintro ⟨h1, _⟩; exact h h1.symm
+  unfold prob reduceTo
+  dsimp only
+  have hz : ∀ e : Env, projectOn dims p o ρ
+      (scatter dims.length [p] (List.take [p].length [o', o']) e ++
+        scatter dims.length [p] (List.drop [p].length [o', o']) e) = 0 := by
+    intro e
+    unfold projectOn; dsimp only
+    have ht := scatter_take_single dims.length p o' e
+    rw [show List.take [p].length [o', o'] = List.take 1 [o', o'] from rfl, ht,
+      List.take_left' (scatter_length _ _ _ _), scatter_getD_single dims.length p o' hp e]
+    rw [if_neg]
+    rintro ⟨h1, _⟩
+    exact h h1.symm
+  rw [sumLabels_congr _ _ _ (fun _ => 0) _ hz]
+  clear hz
+  generalize ((List.range dims.length).filter fun p_1 => decide (p_1 ∉ [p])) = ls
+  generalize (fun (_ : Nat) => 0) = e0
+  induction ls generalizing e0 with
+  | nil => rfl
+  | cons a ls ih => simp only [sumLabels, ih]; simp
 
 /-- the probability of the outcome projected on is unchanged by the projection -/
 theorem prob_after_projectOn_same (dims : List Nat) (p o : Nat) (hp : p < dims.length)
     (ρ : Tensor R) : prob dims p (projectOn dims p o ρ) o = prob dims p ρ o := by
-  unfold prob
-  apply sumGrid_congr
-  intro κ hκ
-  have hlen : κ.length = dims.length - 1 := by rw [hκ, List.length_eraseIdx]; simp [hp]
-  have hpl : p ≤ κ.length := by omega
-  have hil : (insertAt κ p o).length = dims.length := by rw [insertAt_length κ p o hpl]; omega
+  unfold prob reduceTo
+  dsimp only
+  apply sumLabels_congr
+  intro e
   unfold projectOn; dsimp only
-  rw [List.take_left' hil, List.drop_left' hil, insertAt_getD κ p o hpl]
+  have h1 : scatter dims.length [p] (List.take [p].length [o, o]) e = scatter dims.length [p] [o, o] e :=
+    scatter_take_single dims.length p o e
+  have h2 : scatter dims.length [p] (List.drop [p].length [o, o]) e = scatter dims.length [p] [o, o] e := by
+    unfold scatter
+    apply List.map_congr_left
+    intro q _
+    by_cases h : q = p <;> simp [h]
+  rw [h1, h2, List.take_left' (scatter_length _ _ _ _), List.drop_left' (scatter_length _ _ _ _),
+    scatter_getD_single dims.length p o hp e]
   simp
 
 end Spec
